@@ -21,8 +21,11 @@ iteration; the inner loops are functions with fuel = the iteration limit of the 
   its argument IN PLACE with the weights absorbed into mode 0 — the returned model is that
   one), the output dictionary.
 
-Not modelled: wall-clock `stoptime`, printing, `fnEvals` / `fnVals` / `nZeros` / `times`,
-`init="random"`.  `precompinds` selects between two ways of computing the same index sets
+Not modelled: wall-clock `stoptime`, `fnEvals` / `fnVals` / `nZeros` / `times`,
+`init="random"`.  There is NO printing branch: the progress lines (`printitn > 0`) evaluate
+`tt_loglikelihood` on a COPY of `M` (b3be554) and only fill `fnVals`; nothing that is returned
+depends on them — the harness checks that on the implementation (every run repeated with
+`printitn` 1, 2, 3: identical decision fields, numbers equal to 1e-12, objective recomputed).  `precompinds` selects between two ways of computing the same index sets
 and has no counterpart.  Zero extents are rejected up front (the code fails on them in
 `np.max` of an empty array).  `np.argsort` of the final weights is the service `sortPerm`.
 The scalar type is a parameter: `+ - * /` and negation come from core classes, the rest
